@@ -74,6 +74,11 @@ def _mask(
     return val.mask(null_mask)  # type: ignore [union-attr]
 
 
+def _supports_nulls(dtype: Any) -> bool:
+    """Whether null values can be stored without changing the data type."""
+    return not (isinstance(dtype, np.dtype) and dtype.kind in "iub")
+
+
 @composite
 def null_field_masks(draw, strategy: Optional[SearchStrategy]):
     """Strategy for masking a column/index with null values.
@@ -82,6 +87,8 @@ def null_field_masks(draw, strategy: Optional[SearchStrategy]):
         pandas dtype strategy will be chained onto this strategy.
     """
     val = draw(strategy)
+    if not _supports_nulls(val.dtype):
+        return val
     size = val.shape[0]
     null_mask = draw(st.lists(st.booleans(), min_size=size, max_size=size))
     if isinstance(val, pd.Index):
@@ -123,7 +130,8 @@ def null_dataframe_masks(
     )
     null_mask = draw(mask_st)
     for column in val:
-        val[column] = _mask(val[column], null_mask[column])
+        if _supports_nulls(val[column].dtype):
+            val[column] = _mask(val[column], null_mask[column])
     return val
 
 
